@@ -60,9 +60,9 @@ Query(x) == /\ built # NoRec /\ last = None /\ q = NoRec
 
 \* (the guard is hoisted out of the quantifiers so that TLC does not enumerate them in leaf states)
 Fresh == built # NoRec /\ last = None /\ q = NoRec
-Next == \/ Construct
-        \/ (Fresh /\ \E u \in BodyLattice(built.lim) : Sample(u))
-        \/ (Fresh /\ \E x \in Near(box.c) : Query(x))
+SampleStep == Fresh /\ \E u \in BodyLattice(built.lim) : Sample(u)
+QueryStep == Fresh /\ \E x \in Near(box.c) : Query(x)
+Next == Construct \/ SampleStep \/ QueryStep
 Spec == Init /\ [][Next]_vars
 
 \* ---- theorems --------------------------------------------------------------------
